@@ -78,13 +78,22 @@ def add_entry(p, wl, entry, fmt, nthreads, repeat=False, quiet=1):
     return ix
 
 
+_LOG_TIME = __import__('re').compile(rb'^\[-?\d+-\d\d-\d\d \d\d:\d\d:\d\d\] : ', __import__('re').M)
+
+
+def _mask_log_time(b):
+    """kalign's log lines ('[date time] : LEVEL : ...') carry the wall clock, which legitimately differs between two
+    executions of one request; everything else on stdout/stderr is compared byte for byte"""
+    return _LOG_TIME.sub(b'[TIME] : ', b) if b'] : ' in b else b
+
+
 def fingerprint(res):
     """everything observable of a run, as a comparable structure (rc, fields, bytes written)"""
     fp = []
     for i in sorted(res.ops):
         o = res.ops[i]
         fields = tuple(sorted((k, v) for k, v in o.f.items() if k not in ('bits',)))
-        outs = tuple(sorted((k, v) for k, v in o.out.items()))
+        outs = tuple(sorted((k, _mask_log_time(v) if k in ('stdout', 'stderr') and isinstance(v, bytes) else v) for k, v in o.out.items()))
         fp.append((i, o.code, fields, outs))
     return fp
 
